@@ -12,6 +12,7 @@ import (
 // Generator self-tests: Go files parse with go/parser, small Python modules stay within the lexer budget,
 // generation is a pure function of the stream, planted names are unique within a file.
 func TestGoFilesParse(t *testing.T) {
+	above, nobody, raw := 0, 0, 0
 	for i := 0; i < 500; i++ {
 		f := GenGo(run.CaseRand("C20", 7, i), "x.go", 0)
 		if _, err := parser.ParseFile(token.NewFileSet(), "x.go", f.Text, 0); err != nil {
@@ -32,7 +33,9 @@ func TestGoFilesParse(t *testing.T) {
 			add(s.Name)
 			for _, fl := range s.Fields {
 				for _, n := range fl.Names {
-					add(n)
+					if n != "_" {
+						add(n)
+					}
 				}
 			}
 		}
@@ -50,7 +53,7 @@ func TestGoFilesParse(t *testing.T) {
 				}
 			}
 		}
-		// a method is declared after its receiver type
+		// every method has its receiver type in the file; AboveType says whether it is written above it
 		pos := map[string]int{}
 		k := 0
 		f.walk(func(d *GoDecl) {
@@ -58,12 +61,37 @@ func TestGoFilesParse(t *testing.T) {
 			if d.Struct != nil {
 				pos[d.Struct.Name] = k
 			}
+		})
+		k = 0
+		f.walk(func(d *GoDecl) {
+			k++
 			if d.Func != nil && d.Func.Recv != nil {
-				if p, ok := pos[d.Func.Recv.Type]; !ok || p > k {
-					t.Fatalf("case %d: method %s before its receiver type", i, d.Func.Name)
+				p, ok := pos[d.Func.Recv.Type]
+				if !ok {
+					t.Fatalf("case %d: receiver type of %s is not declared in the file", i, d.Func.Name)
+				}
+				if (p > k) != d.Func.AboveType {
+					t.Fatalf("case %d: AboveType of %s is wrong", i, d.Func.Name)
+				}
+				if d.Func.AboveType {
+					above++
 				}
 			}
+			if d.Func != nil && d.Func.NoBody {
+				nobody++
+			}
 		})
+		for _, im := range f.Imports {
+			if im.Raw {
+				raw++
+				if !strings.Contains(f.Text, "`"+im.Path+"`") {
+					t.Fatalf("case %d: raw import %s not rendered", i, im.Path)
+				}
+			}
+		}
+	}
+	if above < 20 || nobody < 20 || raw < 50 {
+		t.Fatalf("dimensions too rare: above=%d nobody=%d raw=%d", above, nobody, raw)
 	}
 }
 
